@@ -933,3 +933,97 @@ Definition ex_value : gval := GStruct [(1, GI32 7); (2, GList [GBytes [x61]%byte
 Example ex_ok : wf_schema ex_schema = true /\ has_type ex_schema (TyRef 0) ex_value = true /\
   gen_encode ex_schema PCompact BContig (TyRef 0) ex_value = Ok [x15; x0e; x19; x18; x01; x61; x11; x00]%byte.
 Proof. vm_compute. auto. Qed.
+
+(* ================= E. recursion depth: bounded by the input, by nothing else ================= *)
+(* nesting depth of a decoded value *)
+Fixpoint gdepth (v : gval) : nat :=
+  match v with
+  | GList l | GSet l =>
+      Datatypes.S ((fix go (l : list gval) : nat := match l with [] => O | x :: r => Nat.max (gdepth x) (go r) end) l)
+  | GMap l =>
+      Datatypes.S ((fix go (l : list (gval * gval)) : nat :=
+                      match l with [] => O | (a, b) :: r => Nat.max (Nat.max (gdepth a) (gdepth b)) (go r) end) l)
+  | GStruct fs _ =>
+      Datatypes.S ((fix go (fs : list (Z * gval)) : nat := match fs with [] => O | (_, x) :: r => Nat.max (gdepth x) (go r) end) fs)
+  | GUnion _ x => Datatypes.S (gdepth x)
+  | _ => 1%nat
+  end.
+
+Definition optP (P : gval -> Prop) (o : option gval) : Prop := match o with Some x => P x | None => True end.
+
+Lemma set_nth_Forall {A} (P : A -> Prop) : forall i x l, P x -> Forall P l -> Forall P (set_nth i x l).
+Proof.
+  intros i x l Hx H. revert i. induction H as [|y l Hy Hl IH]; intros i; destruct i; cbn [set_nth]; constructor; auto.
+Qed.
+
+(* the field variables of a struct decode only ever hold values returned by the recursive calls *)
+Lemma dec_fields_inv S p fk rec (P : gval -> Prop) : forall m fs vars s vars' s',
+  (forall fld s x s', In fld fs -> rec (f_ty fld) s = Ok (x, s') -> P x) ->
+  Forall (optP P) vars -> dec_fields S p fk rec m fs vars s = Ok (vars', s') -> Forall (optP P) vars'.
+Proof.
+  induction m as [|m IH]; intros fs vars s vars' s' Hrec Hv H; [discriminate|].
+  cbn [dec_fields] in H. binv H.
+  destruct (ttype_eqb (fst x) TStop); [binv H; injection H as <- _; exact Hv|].
+  binv H. binv H. binv H.
+  eapply IH; [exact Hrec| |exact H].
+  destruct (match_field S fs 0 (snd x) (fst x)) as [[i fld]|] eqn:Em.
+  - binv E1. injection E1 as <- _. apply set_nth_Forall; [|exact Hv].
+    destruct (match_field_spec _ _ _ _ _ _ _ Em) as [Hin _]. cbn [optP]. eapply Hrec; eauto.
+  - binv E1. injection E1 as <- _. exact Hv.
+Qed.
+
+(* struct R { 1: optional R next }: every value of it is decodable, and decoding a value nested d deep needs
+   more than d nested decode calls *)
+Definition rec_schema : schema := [DStruct [mkField 1 Optional (TyRef 0) None] false false].
+Fixpoint nest_val (d : nat) : gval :=
+  match d with O => GStruct [] [] | Datatypes.S d' => GStruct [(1, nest_val d')] [] end.
+
+Lemma nest_val_depth d : gdepth (nest_val d) = Datatypes.S d.
+Proof. induction d as [|d IH]; cbn [nest_val gdepth]; [reflexivity|]. rewrite IH. lia. Qed.
+Lemma nest_val_type d : has_type rec_schema (TyRef 0) (nest_val d) = true.
+Proof.
+  induction d as [|d IH]; [reflexivity|]. cbn [nest_val]. rewrite has_type_struct.
+  change (resolve rec_schema (TyRef 0)) with (TyRef 0). cbv iota beta.
+  change (lookup rec_schema 0) with (Some (DStruct [mkField 1 Optional (TyRef 0) None] false false)). cbv iota beta.
+  rewrite ht_fields_cons. cbn [split_at f_id f_req f_ty Z.eqb Pos.eqb]. rewrite IH. reflexivity.
+Qed.
+Lemma nest_val_fill d : fill_defaults rec_schema (TyRef 0) (nest_val d) = nest_val d.
+Proof.
+  induction d as [|d IH]; [reflexivity|]. cbn [nest_val]. rewrite fill_defaults_struct.
+  change (resolve rec_schema (TyRef 0)) with (TyRef 0). cbv iota beta.
+  change (lookup rec_schema 0) with (Some (DStruct [mkField 1 Optional (TyRef 0) None] false false)). cbv iota beta.
+  rewrite fd_fields_cons. cbn [split_at f_id f_req f_ty Z.eqb Pos.eqb defaults_of flat_map app fd_fields f_dflt]. rewrite IH. reflexivity.
+Qed.
+
+Lemma rec_schema_depth p : forall f s v s',
+  gen_decode rec_schema p f (TyRef 0) s = Ok (v, s') -> (gdepth v <= f)%nat.
+Proof.
+  induction f as [|f IH]; intros s v s' H; [discriminate|].
+  rewrite gen_decode_S in H. cbn [resolve resolve_n lookup nth_error rec_schema length] in H.
+  binv H. binv H. binv H.
+  assert (Hv : Forall (optP (fun y => (gdepth y <= f)%nat)) x0).
+  { eapply (dec_fields_inv rec_schema p f (gen_decode rec_schema p f) (fun y => (gdepth y <= f)%nat)); [| |exact E0].
+    - intros fld s3 y s3' [<-|[]] Hy. cbn [f_ty] in Hy. eapply IH; eauto.
+    - cbn. constructor; [exact I|constructor]. }
+  destruct x0 as [|o vt]; [discriminate|]. cbn [finish_fields bind] in H.
+  inversion Hv as [|? ? Ho _]; subst.
+  destruct o as [y|]; cbn [f_dflt f_req f_id bind] in H; injection H as <- _; cbn [gdepth optP] in *; lia.
+Qed.
+
+(* the templates have no depth limit: for every d there is a (4d+1)-byte message that the emitted decoder of a
+   recursive struct accepts, and producing its value takes more than d nested decode calls (the fuel is consumed
+   once per nested call) -- native recursion proportional to the nesting of the INPUT: finding F-09f *)
+Theorem gen_depth_unbounded : exists S t, wf_schema S = true /\
+  forall d : nat, exists l v fuel,
+    gen_decode S PBinary fuel t (mkS l r0) = Ok (v, mkS [] r0) /\ gdepth v = Datatypes.S d /\
+    forall f s', (f <= d)%nat -> gen_decode S PBinary f t (mkS l r0) <> Ok (v, s').
+Proof.
+  exists rec_schema, (TyRef 0). split; [reflexivity|]. intros d.
+  destruct (gen_roundtrip rec_schema PBinary BContig (TyRef 0) (nest_val d) eq_refl (nest_val_type d) w0 eq_refl)
+    as (ss & Hw & Hr).
+  exists (flat ss), (nest_val d), (vsize (to_tval rec_schema (TyRef 0) (nest_val d))).
+  split; [|split].
+  - specialize (Hr _ [] r0 (Nat.le_refl _) idle_r0). rewrite app_nil_r in Hr. rewrite Hr, nest_val_fill. reflexivity.
+  - apply nest_val_depth.
+  - intros f s' Hf H. apply rec_schema_depth in H. rewrite nest_val_depth in H. lia.
+Qed.
